@@ -419,14 +419,14 @@ class ApiCheck(object):
 
     def make_replay(self, c, v, spec, minimised, occurrences):
         # final confirmation in a NEW zygote, with outputs, to fill in the record
-        res, refs, vios, notes = self.run_and_judge(spec, c['hs'], c['ref_hs'], fresh=True, extra={'want_outputs': True, 'want_events': True})
+        res, refs, vios, notes = self.run_and_judge(spec, c['hs'], c['ref_hs'], fresh=True)
         same = [x for x in vios if x['key'] == v['key']]
         confirmed = bool(same)
         if not confirmed and minimised:
             # fall back to the unminimised spec
             spec = c['spec']
             minimised = False
-            res, refs, vios, notes = self.run_and_judge(spec, c['hs'], c['ref_hs'], fresh=True, extra={'want_outputs': True, 'want_events': True})
+            res, refs, vios, notes = self.run_and_judge(spec, c['hs'], c['ref_hs'], fresh=True)
             same = [x for x in vios if x['key'] == v['key']]
             confirmed = bool(same)
         rcs = [apigen.ref_call_for(spec, i) for i in range(len(spec['calls']))]
@@ -455,7 +455,7 @@ class ApiCheck(object):
             return any(x['key'] == key for x in vios)
 
         def get_explicit(spec):
-            res = self.pool.call(dict(spec, want_schedule=True, _hs=hs))
+            res = self.pool.call(dict(spec, _hs=hs))
             return res.get('explicit')
 
         return shrink.shrink_api(c['spec'], test, get_explicit)
@@ -552,7 +552,7 @@ def run_replay(opts):
     chk.pool = driver.Pool(opts.repo, chk.hashseeds, 2)
     chk.oracle = RefOracle(chk.pool)
     try:
-        res, refs, vios, notes = chk.run_and_judge(rp['spec'], 0, 1, fresh=True, extra={'want_outputs': True, 'want_events': True})
+        res, refs, vios, notes = chk.run_and_judge(rp['spec'], 0, 1, fresh=True)
         if 'harness_error' in res:
             print('HARNESS-ERROR replay: %s' % res['harness_error'][-400:])
             return common.EXIT_HARNESS
